@@ -89,7 +89,7 @@ class MassFlowDict(DictionaryView): # Wraps a dict of molar flows
         return value / self.MW[index] # From kg to mol
 
 
-TP_V = (mock_thermal_condition, None) # Initial cache for molar volume
+TP_V = (mock_thermal_condition, None, None) # Initial cache for molar volume
 class VolumetricFlowDict(DictionaryView): # Wraps a dict of molar flows
     __slots__ = ('TP', 'V', 'phase', 'phase_container', 'cache')
     
@@ -102,21 +102,21 @@ class VolumetricFlowDict(DictionaryView): # Wraps a dict of molar flows
         self.cache = cache
     
     def output(self, index, value):
-        TP, V = self.cache.get(index, TP_V)
-        if not TP.in_equilibrium(self.TP):
-            phase = self.phase or self.phase_container.phase
+        phase = self.phase or self.phase_container.phase
+        TP, cached_phase, V = self.cache.get(index, TP_V)
+        if cached_phase != phase or not TP.in_equilibrium(self.TP):
             V = self.V[index]
             V = 1000. * (getattr(V, phase) if isinstance(V, PhaseHandle) else V)(*self.TP)
-            self.cache[index] = (self.TP.copy(), V)
+            self.cache[index] = (self.TP.copy(), phase, V)
         return value * V # From mol to m3
 
     def input(self, index, value):
-        TP, V = self.cache.get(index, TP_V)
-        if not TP.in_equilibrium(self.TP):
-            phase = self.phase or self.phase_container.phase
+        phase = self.phase or self.phase_container.phase
+        TP, cached_phase, V = self.cache.get(index, TP_V)
+        if cached_phase != phase or not TP.in_equilibrium(self.TP):
             V = self.V[index]
             V = 1000. * (getattr(V, phase) if isinstance(V, PhaseHandle) else V)(*self.TP)
-            self.cache[index] = (self.TP.copy(), V)
+            self.cache[index] = (self.TP.copy(), phase, V)
         return value / V # From m3 to mol
         
     
